@@ -26,6 +26,22 @@ I = z3.IntSort()
 ISKEY = z3.Function("is_key", I, z3.BoolSort())
 PLEN = z3.Function("n_parents_listed", I, I)
 PAR = z3.Function("parent_of", I, I, I)
+ISPAR = z3.Function("is_listed_parent", I, z3.BoolSort())  # axiom (SourceDict.axioms): every listed parent of every key satisfies it
+
+
+def known(x):
+    """x is a node of the argument: one of its keys, or listed as a parent of one of its keys"""
+    return z3.Or(ISKEY(x), ISPAR(x))
+
+
+def all_known(n, arr):
+    i = z3.Int(fresh_name("i"))
+    return z3.ForAll([i], z3.Implies(z3.And(0 <= i, i < n), known(arr[i])))
+
+
+def graph_keys_are_parents(gk):
+    x = z3.Int(fresh_name("x"))
+    return z3.ForAll([x], z3.Implies(z3.Select(gk, x), ISPAR(x)))
 
 
 def _contract():
@@ -126,7 +142,8 @@ class SourceDict:
         return [self.nk >= 0,
                 z3.ForAll([i], z3.Implies(z3.And(0 <= i, i < self.nk), ISKEY(self.K[i])), patterns=[self.K[i]]),
                 z3.ForAll([i, j], z3.Implies(z3.And(0 <= i, i < j, j < self.nk), self.K[i] != self.K[j])),
-                z3.ForAll([i], PLEN(i) >= 0, patterns=[PLEN(i)])]
+                z3.ForAll([i], PLEN(i) >= 0, patterns=[PLEN(i)]),
+                z3.ForAll([i, j], z3.Implies(z3.And(ISKEY(i), 0 <= j, j < PLEN(i)), ISPAR(PAR(i, j))), patterns=[PAR(i, j)])]
 
     def getattr(self, interp, st, attr, node):
         if attr == "items":
@@ -205,7 +222,8 @@ class _ChildList:
 
     def getattr(self, interp, st, attr, node):
         if attr == "append":
-            yield st, _Fn(lambda i, s, a, k, nd: None)  # the content of child lists is not tracked (arbitrary nodes)
+            # the content of child lists is not tracked, only that every stored child is a key of the argument (D_alts assumes it back)
+            yield st, _Fn(lambda i, s, a, k, nd: i.oblige(s, "inv.children", "child_lists_hold_keys_only", ISKEY(to_z3(a[0])), getattr(nd, "lineno", None)) and None)
         else:
             raise Unsupported(f"child list .{attr}")
 
@@ -259,12 +277,14 @@ def vc_toposort():
     def A_init(interp, st, k, node):
         npm = st.locals["num_parents"]
         interp.oblige(st, f"inv{k}.init", "counters", build_inv(npm.m), node.lineno)
+        interp.oblige(st, f"inv{k}.init", "graph_keys_are_listed_parents", graph_keys_are_parents(st.locals["graph"].GK), node.lineno)
 
     def A_head(interp, st):
         npm, g = st.locals["num_parents"], st.locals["graph"]
         npm.m = z3.Array(fresh_name("NP"), I, I)
         g.GK = z3.Array(fresh_name("GK"), I, z3.BoolSort())
         st.assume(build_inv(npm.m))
+        st.assume(graph_keys_are_parents(g.GK))
         return {}
 
     def A_alts():
@@ -277,15 +297,18 @@ def vc_toposort():
 
     def A_pres(interp, st, g, label, elem, k, node):
         interp.oblige(st, f"inv{k}.preserve", "counters", build_inv(st.locals["num_parents"].m), node.lineno)
+        interp.oblige(st, f"inv{k}.preserve", "graph_keys_are_listed_parents", graph_keys_are_parents(st.locals["graph"].GK), node.lineno)
 
     def B_init(interp, st, k, node):
         interp.oblige(st, f"inv{k}.init", "counters", build_inv(st.locals["num_parents"].m), node.lineno)
+        interp.oblige(st, f"inv{k}.init", "graph_keys_are_listed_parents", graph_keys_are_parents(st.locals["graph"].GK), node.lineno)
 
     def B_head(interp, st):
         npm, g = st.locals["num_parents"], st.locals["graph"]
         npm.m = z3.Array(fresh_name("NP"), I, I)
         g.GK = z3.Array(fresh_name("GK"), I, z3.BoolSort())
         st.assume(build_inv(npm.m))
+        st.assume(graph_keys_are_parents(g.GK))
         return {}
 
     def B_alts():
@@ -302,7 +325,9 @@ def vc_toposort():
     # ---- main loop over the growing result, inner loop over the children of one parent
     def main_inv(st):
         res, npm = st.locals["result"], st.locals["num_parents"]
-        return [("no_duplicates", distinct(res.n, res.arr)), ("listed_nodes_have_no_open_parent", np_nonpos(res.n, res.arr, npm.m))]
+        return [("no_duplicates", distinct(res.n, res.arr)), ("listed_nodes_have_no_open_parent", np_nonpos(res.n, res.arr, npm.m)),
+                ("listed_nodes_are_nodes_of_the_argument", all_known(res.n, res.arr)),
+                ("graph_keys_are_listed_parents", graph_keys_are_parents(st.locals["graph"].GK))]
 
     def C_init(interp, st, k, node):
         for nm, f in main_inv(st):
@@ -331,7 +356,11 @@ def vc_toposort():
             interp.oblige(st, f"inv{k}.preserve", nm, f, node.lineno)
 
     def D_alts():
-        yield "any_child", lambda st: fresh_int("child")
+        def mk(st):
+            c = fresh_int("child")
+            st.assume(ISKEY(c))  # invariant of the child lists (obligation child_lists_hold_keys_only at every append)
+            return c
+        yield "any_child", mk
 
     def D_head(interp, st):
         # the loop over the children of one parent changes the list and the counters, never the key set of `graph`
@@ -402,6 +431,8 @@ def vc_toposort():
             ln = fresh_int("klen")
             arr = z3.Array(fresh_name("keys"), I, I)
             st.assume(ln >= 0)
+            i = z3.Int(fresh_name("ik"))
+            st.assume(z3.ForAll([i], z3.Implies(z3.And(0 <= i, i < ln), z3.Select(x.d.GK, arr[i])), patterns=[arr[i]]))  # python: list(d.keys()) lists keys of d
             return SymList(ln, arr)
         return Interp.bi_list(it, st, f, args, kw, node)
     it.bi_list = bi_list
@@ -433,6 +464,7 @@ def vc_toposort():
         res = it._relocate(st, res)
         hcz = z3.BoolVal(hc) if isinstance(hc, bool) else hc
         it.oblige(st, "post", "no_duplicates_when_acyclic", z3.Implies(z3.Not(hcz), distinct(res.n, res.arr)))
+        it.oblige(st, "post", "lists_only_nodes_of_the_argument", all_known(res.n, res.arr))
     it.n_paths = n
     for o in it.obligations:
         o.properties = ["C14"]
